@@ -1,5 +1,11 @@
 package main
 
+import (
+	"fmt"
+
+	"golang.org/x/tools/go/ssa"
+)
+
 func init() { register("C17", checkC17) }
 
 func checkC17(c *Check) {
@@ -23,6 +29,59 @@ func checkC17(c *Check) {
 	ruleDirectWrite(c, p, "R17.7")
 	ruleBuffersRefetched(c, p, "R17.8", "Writer", "Reader", "CompressingReader")
 	ruleStreamFieldsRearmed(c, p, "R17.9")
+	ruleNestedRearm(c, p, "R17.11")
+	c.RuleDoc["R17.11"] = "struct-valued fields re-initialised through their own method are re-initialised completely"
+	ruleInitTransition(c, p, "R17.10")
+	c.RuleDoc["R17.10"] = "the first-use initialisation is followed by the state transition on every path"
 	c.RuleDoc["R17.8"] = "block-sized buffers are re-fetched from the current block size at frame start"
 	c.RuleDoc["R17.9"] = "per-stream fields written by the data path are re-initialised by init or Reset"
+}
+
+// ruleInitTransition: in every method that performs the lazy first-use initialisation (a call reaching Writer.init or
+// Reader.init), no return is reachable after that call without the state transition (_State.next, directly or in a
+// callee, or a plain store to the state word). A successful init that leaves the object in newState would run init
+// again on the next call (a second frame header, a second header parse).
+func ruleInitTransition(c *Check, p *Program, rule string) {
+	n := 0
+	for _, owner := range []string{"Writer", "Reader"} {
+		for _, fn := range p.SrcFuncs() {
+			if fn.Name() == "init" || recvTypeName(fn) != owner || fn.Pkg == nil || fn.Pkg.Pkg.Path() != pkgRoot {
+				continue
+			}
+			for _, ci := range callsIn(fn) {
+				if !calleeIs(ci, pkgRoot, owner+".init") {
+					continue
+				}
+				if _, isGo := ci.(*ssa.Go); isGo {
+					continue
+				}
+				n++
+				isTrans := func(in ssa.Instruction) bool {
+					if cj, ok := in.(ssa.CallInstruction); ok {
+						if _, isDefer := cj.(*ssa.Defer); isDefer {
+							return false
+						}
+						return callReaches(cj, func(x ssa.CallInstruction) bool { return calleeIs(x, pkgRoot, "_State.next") })
+					}
+					if st, ok := in.(*ssa.Store); ok && lastField(st.Addr) == "_State.state" {
+						return true
+					}
+					return false
+				}
+				// a deferred transition covers every return
+				deferred := false
+				for _, cj := range callsIn(fn) {
+					if d, ok := cj.(*ssa.Defer); ok && callReaches(d, func(x ssa.CallInstruction) bool { return calleeIs(x, pkgRoot, "_State.next") }) {
+						deferred = true
+					}
+				}
+				miss := false
+				if !deferred {
+					miss, _ = reachAvoid(fn, ci.(ssa.Instruction), isReturn, isTrans)
+				}
+				c.Cond(!miss, rule, owner+"."+fn.Name()+"#init-then-transition", p.InstrPos(ci), "after the first-use init the object leaves newState on every path (error or not)", "every path from init() to a return passes _State.next", "a return is reachable after init() without a state transition: the object stays in newState and the next call initialises again (the frame header is written or parsed twice)")
+			}
+		}
+	}
+	c.Cond(n >= 5, rule, "init-call-sites", "", "the lazy initialisation sites were found", fmt.Sprintf("%d call sites of init", n), fmt.Sprintf("only %d call sites of Writer.init/Reader.init found (expected at least 5)", n))
 }
